@@ -33,7 +33,7 @@ GLOBAL = '_global_state'
 
 def run(ctx):
     for fn in (r1_overlay_lifetime, r2_inline_never_persistent, r3_overlay_read_before_write, r4_lookup_order,
-               r5_run_loop, r6_comments_only, r7_defaults_path, r8_break_placement):
+               r5_run_loop, r6_comments_only, r7_defaults_path, r8_break_placement, r9_inline_classification, r10_effects_at_call_time):
         ctx.rep.rule(fn, ctx)
 
 
@@ -761,12 +761,117 @@ def r8_break_placement(ctx):
 
 
 # ---------------------------------------------------------------------------
+def r9_inline_classification(ctx):
+    """Directive.extract flags a directive as inline iff the statement text contains a line that is not a comment.  The classifying expression is
+    evaluated on the finite domain of line-kind sequences (comment / code, length 1..3) and compared with that specification."""
+    import itertools
+    rep = ctx.rep
+    q = 'xdoctest.directive.Directive.extract'
+    f = ctx.func(q)
+    g = ctx.cfg(f)
+    rd = ctx.rd(f)
+    text = [a.arg for a in f.node.args.args if a.arg not in ('cls', 'self')][0]
+    # the value handed to parse_directive_optstr as `inline`
+    calls = [(n, c) for n in g.nodes if not n.dup for c in node_calls(n) if isinstance(c.func, ast.Name) and c.func.id == 'parse_directive_optstr']
+    rep.floor('C04.R9', 'directive constructions in extract', len(calls), 1)
+
+    class Unrec(Exception):
+        pass
+
+    def ev(e, node, lines, env):
+        """evaluate a boolean expression over a list of line kinds ('#' comment, 'x' code)"""
+        if isinstance(e, ast.UnaryOp) and isinstance(e.op, ast.Not):
+            return not ev(e.operand, node, lines, env)
+        if isinstance(e, ast.BoolOp):
+            vs = [ev(v, node, lines, env) for v in e.values]
+            return all(vs) if isinstance(e.op, ast.And) else any(vs)
+        if isinstance(e, ast.Call) and isinstance(e.func, ast.Name) and e.func.id in ('all', 'any') and len(e.args) == 1 and isinstance(e.args[0], (ast.GeneratorExp, ast.ListComp)):
+            ge = e.args[0]
+            if len(ge.generators) != 1 or ge.generators[0].ifs or not isinstance(ge.generators[0].target, ast.Name):
+                raise Unrec(ast.unparse(e))
+            it = ge.generators[0].iter
+            if not (isinstance(it, ast.Call) and isinstance(it.func, ast.Attribute) and it.func.attr == 'splitlines' and is_name(it.func.value, text)):
+                raise Unrec(ast.unparse(it))
+            var = ge.generators[0].target.id
+            vals = [ev(ge.elt, node, lines, dict(env, **{var: k})) for k in lines]
+            return all(vals) if e.func.id == 'all' else any(vals)
+        if isinstance(e, ast.Call) and isinstance(e.func, ast.Attribute) and e.func.attr == 'startswith' and len(e.args) == 1 and isinstance(e.args[0], ast.Constant) and e.args[0].value == '#':
+            r = e.func.value
+            if isinstance(r, ast.Call) and isinstance(r.func, ast.Attribute) and r.func.attr in ('strip', 'lstrip') and not r.args and isinstance(r.func.value, ast.Name) and r.func.value.id in env:
+                return env[r.func.value.id] == '#'
+            raise Unrec(ast.unparse(e))
+        if isinstance(e, ast.Name):
+            ds = rd.at(node, e.id)
+            if len(ds) == 1 and ds[0].kind == 'assign' and isinstance(ds[0].value, ast.AST):
+                return ev(ds[0].value, ds[0].node, lines, env)
+        if isinstance(e, ast.Constant) and isinstance(e.value, bool):
+            return e.value
+        raise Unrec(ast.unparse(e))
+    for (n, c) in calls:
+        arg = c.args[1] if len(c.args) > 1 else next((k.value for k in c.keywords if k.arg == 'inline'), None)
+        need(arg is not None, 'C04.R9: parse_directive_optstr is called without the inline flag')
+        bad = []
+        try:
+            for k in (1, 2, 3):
+                for lines in itertools.product('#x', repeat=k):
+                    got = ev(arg, n, list(lines), {})
+                    want = 'x' in lines
+                    if got != want:
+                        bad.append((''.join(lines), got))
+        except Unrec as ex:
+            raise AnalysisError('C04.R9: unrecognised inline classification `%s`' % ex)
+        rep.ob('C04.R9', ctx.loc(f, c), 'inline flag of %s' % ctx.src(c), not bad,
+               'inline <=> some line of the statement is not a comment (8+4+2 line-kind sequences)' if not bad else
+               'the inline flag is wrong for the line-kind sequences %s (# = comment line, x = code line): a directive on a multi-line statement that contains a comment-only line is treated as a '
+               'block directive and changes the persistent state' % bad[:4], anchor=q)
+
+
+def r10_effects_at_call_time(ctx):
+    """the effect of a REQUIRES directive depends on the environment (sys.argv, environment variables, importable modules) at the moment the part is
+    reached.  Directive objects live in the parsed parts and are reused by every run, so they must stay immutable after construction: no method other
+    than __init__ stores to a field, in particular effects() must not remember its answer."""
+    rep = ctx.rep
+    ci = ctx.cls('xdoctest.directive.Directive')
+    n = 0
+    for name, m in sorted(ci.methods.items()):
+        a = m.node.args.args
+        if not a:
+            continue
+        recv = a[0].arg
+        for x in ast.walk(m.node):
+            tgt = None
+            if isinstance(x, ast.Assign):
+                tgt = x.targets
+            elif isinstance(x, (ast.AugAssign, ast.AnnAssign)):
+                tgt = [x.target]
+            for t in tgt or []:
+                for tt in ([t] if not isinstance(t, (ast.Tuple, ast.List)) else t.elts):
+                    base = tt.value if isinstance(tt, ast.Subscript) else tt
+                    if isinstance(base, ast.Attribute) and is_name(base.value, recv):
+                        n += 1
+                        ok = name == '__init__'
+                        rep.ob('C04.R10', ctx.loc(m, x), '%s: %s' % (name, ctx.src(x)), ok,
+                               'set once at construction' if ok else
+                               'a Directive is modified after construction (in %s): the object is shared by every run of the doctest, so what it remembers from one run '
+                               '(e.g. the evaluated REQUIRES condition) is what the next run sees' % name, nontrivial=not ok, anchor=m.qualname)
+    rep.floor('C04.R10', 'field stores in Directive', n, 4)
+    # module-level memo tables for effects
+    mod = ctx.prog.module('xdoctest.directive')
+    fe = ctx.func('xdoctest.directive.Directive.effects')
+    decos = [ast.unparse(d) for d in fe.node.decorator_list if any(k in ast.unparse(d) for k in ('cache', 'memo'))]
+    rep.ob('C04.R10', ctx.loc(fe, fe.node), 'effects() is not memoised', not decos, 'plain method' if not decos else 'effects() is wrapped by %s' % decos, nontrivial=False, anchor=fe.qualname)
+
+
+# ---------------------------------------------------------------------------
 from ..selftest import fire, silent      # noqa: E402
 
 DE = 'xdoctest/doctest_example.py'
 DI = 'xdoctest/directive.py'
 SA = 'xdoctest/static_analysis.py'
 VARIANTS = [
+    fire('inline-iff-no-comment-line', 'C04.R9', (DI, "        inline = not all(line.strip().startswith('#')\n", "        inline = not any(line.strip().startswith('#')\n")),
+    silent('inline-any-not-comment', (DI, "        inline = not all(line.strip().startswith('#')\n                         for line in text.splitlines())\n", "        inline = any(not line.lstrip().startswith('#')\n                     for line in text.splitlines())\n")),
+    fire('effects-remembered-on-the-directive', 'C04.R10', (DI, "        self.positive = positive\n", "        self.positive = positive\n        self._effects = None\n"), (DI, "    def effects(self, argv=None, environ=None):\n", "    def effects(self, argv=None, environ=None):\n        if self._effects is None:\n            self._effects = self._effects_uncached(argv, environ)\n        return self._effects\n\n    def _effects_uncached(self, argv=None, environ=None):\n")),
     fire('overlay-never-cleared', 'C04.R1', (DI, "        self._inline_state.clear()\n", "")),
     fire('overlay-cleared-after-loop', 'C04.R1',
          (DI, "        self._inline_state.clear()\n", ""),
